@@ -53,7 +53,8 @@ class C14(Prop):
                 evs.sort(key=lambda e: e[-1])
             out.append({'kind': 'req', 'cap': rng.choice([0, 0, 1, 3]), 'frag': rng.choice([None, None, 64]), 'evs': evs, 'own': own,
                         # the lease-honouring requester may be the server-side endpoint (it asks the client and waits for the client's LEASE frames)
-                        'server': (not own) and not any(e[0] == 'X' for e in evs) and rng.random() < 0.35})
+                        'server': (not own) and not any(e[0] == 'X' for e in evs) and rng.random() < 0.35,
+                        'resbit': rng.choice([None, None, None, 'ttl', 'count', 'both'])})
         for _ in range(n // 5):
             out.append({'kind': 'announce', 'role': rng.choice(['server', 'server', 'client']), 'leases': [[rng.choice([0, 1, 7, 2 ** 31 - 1]), rng.choice([1000, 2_500_000, 500_000, 1_500_000, 60_000_000, 999_000, 86_399_999_000, 86_400_000_000, 86_405_000_000, 172_800_000_000, 266_400_017_000,
                                                                                                    2_147_483_647_000, rng.randint(1, 2_147_483_647) * 1000])] for _ in range(rng.randint(1, 3))],
@@ -120,7 +121,13 @@ class C14(Prop):
             if e[0] == 'L':
                 fr = F.LeaseFrame()
                 fr.number_of_requests, fr.time_to_live = e[1], e[2]
-                t.deliver(fr.serialize())
+                raw = bytearray(fr.serialize())
+                # both fields are 31-bit: a peer may leave anything in the reserved top bit of either word, it does not count
+                if case.get('resbit') in ('ttl', 'both'):
+                    raw[6] |= 0x80
+                if case.get('resbit') in ('count', 'both'):
+                    raw[10] |= 0x80
+                t.deliver(bytes(raw))
                 model.append('L%d:%d@%d' % (e[1], e[2], when))
             else:
                 tag += 1
